@@ -572,11 +572,16 @@ carquet_status_t parquet_parse_file_metadata(
 
     thrift_type_t type;
     int16_t field_id;
+    unsigned required_seen = 0;  /* bit n-1: required field n (1..4) was present */
 
     while (thrift_read_field_begin(&dec, &type, &field_id)) {
         if (thrift_decoder_has_error(&dec)) {
             CARQUET_SET_ERROR(error, dec.status, "%s", dec.error_message);
             return dec.status;
+        }
+
+        if (field_id >= 1 && field_id <= 4) {
+            required_seen |= 1u << (field_id - 1);
         }
 
         switch (field_id) {
@@ -654,6 +659,14 @@ carquet_status_t parquet_parse_file_metadata(
     if (thrift_decoder_has_error(&dec)) {
         CARQUET_SET_ERROR(error, dec.status, "%s", dec.error_message);
         return dec.status;
+    }
+
+    /* version, schema, num_rows and row_groups are required by parquet.thrift:
+     * bytes that merely end in a stop byte are not a footer */
+    if (required_seen != 0xFu) {
+        CARQUET_SET_ERROR(error, CARQUET_ERROR_INVALID_METADATA,
+            "File metadata lacks a required field (version, schema, num_rows, row_groups)");
+        return CARQUET_ERROR_INVALID_METADATA;
     }
 
     return CARQUET_OK;
